@@ -10,7 +10,7 @@ for d in sorted(os.listdir(R)):
     if not re.match(r"^C\d\d(r\d)?$", d): continue
     m = json.load(open(f"{R}/{d}/meta.json"))
     caught = sorted(re.sub(r"caught_by_(C\d\d)\.json", r"\1", os.path.basename(f)) for f in glob.glob(f"{R}/{d}/caught_by_*.json"))
-    rows.append((d, short(m.get("summary") or m.get("what") or ""), m.get("missed_first", ""), ", ".join(caught)))
+    rows.append((d, short(m.get("summary") or m.get("what") or "", 170), m.get("missed_first", "") + (": " + m["strengthening"] if m.get("strengthening") else ""), ", ".join(caught)))
 print("| seed | change | first run of its own check | caught by (replay kept) |\n|---|---|---|---|")
 for r in rows:
     print(f"| {r[0]} | {r[1]} | {r[2]} | {r[3]} |")
